@@ -38,6 +38,10 @@ import (
 //     next Compile is the only place where the refusal can show); the first runnable behaves as before after
 //     every call; a later successful Compile with run-time-equivalent options gives a runnable that behaves
 //     like the first one.
+//
+// Not compared with the flat run: a Workflow history in which a Compile failed while a queued declaration
+// named a node that was not declared yet (the replay refuses that declaration and the refusal sticks like
+// every Add* error, whereas the flat construction compiles; counted).
 // ---------------------------------------------------------------------------
 
 type laterCase struct {
@@ -77,8 +81,14 @@ type laterWitness struct {
 // laterName: the API method(s) behind a call, for signatures.
 func laterName(op Op) string {
 	switch op.K {
+	case "CC":
+		return "Append" + componentMethod(op.Typ)
+	case "GC":
+		return "Add" + strings.TrimSuffix(componentMethod(op.Typ), "Node") + "Node"
 	case "WN":
 		switch {
+		case strings.HasPrefix(op.Typ, "C:"):
+			return "Add" + strings.TrimSuffix(componentMethod(op.Typ[2:]), "Node") + "Node"
 		case op.Typ == "P":
 			return "AddPassthroughNode"
 		case op.Typ == "G":
@@ -148,7 +158,10 @@ func laterChain(r *mon.Rand, lc *laterCase) []Op {
 	usedKey := false
 	n := r.Range(1, 5)
 	for len(ops) < n || len(ops) == 0 {
-		switch k := r.Intn(20); {
+		switch k := r.Intn(24); {
+		case k >= 20:
+			ops = append(ops, componentGroup(r, func() string { t := tags[nt%len(tags)]; nt++; return t })...)
+			lc.tag("component-stages")
 		case k < 7:
 			ops = append(ops, lam("s"))
 		case k < 9:
@@ -225,6 +238,16 @@ func laterExtensions(r *mon.Rand, fe string, keys []string, w []Op) []Op {
 			B(k1, "n", "end"), B(k1, k2, "end"), B("start", k1, "end"), Lh("n", "ok"),
 		}
 	}
+	// every other Append* / Add*Node method (component stages)
+	kind := componentKinds[r.Intn(len(componentKinds))]
+	switch fe {
+	case "chain":
+		pool = append(pool, CC("retriever", "r"), CC(kind, "k"), CC(kind, "k"))
+	case "workflow":
+		pool = append(pool, WC("retriever", "n", in(key())), WC(kind, "n"), WC(kind, "n"), WC(kind, key()))
+	default:
+		pool = append(pool, GC("retriever", "n"), GC(kind, "n"), GC(kind, key()))
+	}
 	n := r.Range(1, 3)
 	out := make([]Op, 0, n)
 	for i := 0; i < n; i++ {
@@ -278,6 +301,16 @@ func laterSeq(r *mon.Rand) *laterCase {
 	if lc.FE == "chain" && r.Prob(0.75) {
 		lc.State = r.Prob(0.2)
 		w = laterChain(r, lc)
+	} else if lc.FE == "workflow" && r.Prob(0.25) {
+		// Workflows with static values (none of the field-mapping base programs but one has any)
+		w = append(w, mon.PickOne(r, [][]Op{
+			{WL("a", in("start")), sv(WS("c", inF("a", "X")), "Y"), WA("end", in("c"))},
+			{sv(WS("c", inF("start", "Y")), "X"), WL("b", in("c")), WA("end", in("b"))},
+			{WL("a", in("start")), WL("b", in("a")), sv(WS("c", inF("a", "X")), "Y"), WA("end", in("c"), dep("b"))},
+			{WL("a", in("start")), WS("c", inF("a", "X")), sv(WA("c"), "Y"), WL("b", inND("c")), WB("c", "b", "end"), WA("end", in("b"))},
+		})...)
+		own = mon.PickOne(r, []string{"", "name", "store"})
+		lc.tag("static-value")
 	} else {
 		var cand []int
 		for i := range bases {
@@ -390,6 +423,13 @@ func (c *checker) checkLater(lc *laterCase) {
 	afterFailed := -1   // first declaring call after a failed Compile (while none has succeeded)
 	afterSuccess := -1  // first declaring call after the first successful Compile
 	nontrivial := false // a declaring call after an earlier Compile, followed by a Compile
+	// a Workflow Compile replays the queued declarations; one that names a node which is not declared yet is
+	// refused and that refusal sticks (legitimately: it is an Add* error), although the same declarations
+	// compile once the node exists. Such a history is not compared with the flat construction.
+	forward, forwardAtFailed := false, false
+	staticSet := map[string]bool{}
+	staticAgain := false
+	known := func(k string) bool { return k == "start" || k == "end" || declared[k] }
 
 	wit := func(i int, flat, note string) laterWitness {
 		return laterWitness{Case: lc, Position: i, Call: lc.Ops[i].String(), Vector: string(vec), Flat: flat, Note: note}
@@ -423,6 +463,15 @@ func (c *checker) checkLater(lc *laterCase) {
 		}
 		if op.K == "WN" && op.Typ != "" {
 			declared[op.Key] = true
+		}
+		switch op.K {
+		case "WN":
+			if op.SV != "" {
+				if staticSet[op.Key+"."+op.SV] && failedAt >= 0 && firstOK < 0 {
+					staticAgain = true
+				}
+				staticSet[op.Key+"."+op.SV] = true
+			}
 		}
 
 		if op.K != "K" {
@@ -470,6 +519,15 @@ func (c *checker) checkLater(lc *laterCase) {
 			switch {
 			case afterSuccess >= 0 && lc.FE != "graph" && ok:
 				late := lc.Ops[afterSuccess]
+				if late.K == "WN" && late.Typ == "" {
+					// what was queued on a handle is forgotten when a later Add*Node replaces the handle: name that call
+					for _, o := range lc.Ops[afterSuccess+1 : i] {
+						if o.K == "WN" && o.Typ != "" && o.Key == late.Key {
+							late = o
+							break
+						}
+					}
+				}
 				rep.Violation("C20/later/"+lc.FE+"/after-successful-compile/"+laterName(late)+"-not-reported",
 					fmt.Sprintf("%s on a compiled %s (a call without error result) is not reported by the next Compile: %s returned nil\n  calls: %s", late, lc.FE, op, lc.Text),
 					wit(i, "", "first call after the successful Compile: "+late.String()))
@@ -511,6 +569,8 @@ func (c *checker) checkLater(lc *laterCase) {
 					wit(i, "rejected: "+firstLine(fres.Err.Error()), ""))
 			case fres.Err != nil:
 				rep.Count("later_rejected_with_and_without_history", 1)
+			case !ok && forwardAtFailed:
+				rep.Count("later_workflow_declaration_before_its_node_refused_by_an_earlier_compile_skipped", 1)
 			case !ok:
 				if lc.FE == "chain" && afterFailed >= 0 {
 					// the first Compile of a chain connects END; what is appended after it failed is refused
@@ -520,6 +580,9 @@ func (c *checker) checkLater(lc *laterCase) {
 				name := "nothing-but-Compile"
 				if afterFailed >= 0 {
 					name = laterName(lc.Ops[afterFailed])
+				}
+				if staticAgain {
+					name = "static-value-set-again"
 				}
 				rep.Violation("C20/later/"+lc.FE+"/after-failed-compile/rejected-what-compiles-without-the-earlier-compile/"+name,
 					fmt.Sprintf("%s returned an error (%s); the same builder calls without the earlier (failed) Compile calls compile\n  calls: %s", op, firstLine(res.Err.Error()), lc.Text),
@@ -561,8 +624,28 @@ func (c *checker) checkLater(lc *laterCase) {
 						wit(i, "accepted", how))
 				}
 			}
-		} else if failedAt < 0 {
-			failedAt = i
+		} else {
+			if failedAt < 0 {
+				failedAt = i
+			}
+			// does a declaration made so far name a node that is not declared by now?
+			forward = false
+			for _, o := range lc.Ops[:i] {
+				switch o.K {
+				case "WN":
+					for _, in := range o.In {
+						forward = forward || !known(in.From)
+					}
+				case "WB":
+					forward = forward || !known(o.From)
+					for _, e := range o.Ends {
+						forward = forward || !known(e)
+					}
+				}
+			}
+			if forward && lc.FE == "workflow" {
+				forwardAtFailed = true
+			}
 		}
 	}
 	if nontrivial {
